@@ -63,8 +63,10 @@ RULE_LOOP = "closed loop: the real Drummer DB and the real scheduler against a s
 CHECKS = {
     "C01": {
         "lean": ["DrummerVerif.Props.C01"],
-        "streams": [loopstream(25, 600)],
-        "rule": RULE_LOOP,
+        "streams": [loopstream(25, 600),
+                    {"cmd": "agent", "driver": "AgentDriver", "sections": None, "eval_re": r"^case:", "timeout": 1500,
+                     "args": {"quick": ["-reports", "0", "-dispatch", "0"], "thorough": ["-reports", "0", "-dispatch", "4"]}}],
+        "rule": RULE_LOOP + " | execute step on real NodeHosts (agent harness, scenario part): every row of the launch / join / restore table the scheduler can produce (launch on a fresh host, join without data, join again after a restart with data, restore with data, restore without data), fenced add / delete, kill, compared with the model's table `instantiate` that the fleet half of the loop model follows (theorem fleet_model_follows_agent_table)",
         "assumptions": DB_ASSUME + ["the fleet half of the loop model (how NodeHosts execute requests: dragonboat's ordered config change, start / join / restore rules, data kept across restarts, a removed replica that learns of its removal stops) is an assumption, exercised against real NodeHosts by the agent harness (C18)"],
     },
     "C20": {
